@@ -41,6 +41,18 @@ CHECKS = {
             "both file positions. Which byte strings a third-party parser rejects and implicit exceptions raised "
             "inside parsers (AttributeError, RecursionError) are NOT decided.",
             "DESIGN.md section 4 C20, section 3 E8"),
+    "C14": ("two-role def-use taint in main (from/to), finite evaluation of the option logic over the argparse "
+            "spec (truth tables of AST expressions), dominance checks in get_filetype",
+            "Static analysis; this property is almost entirely structural. (R14a) role separation: every value that "
+            "selects, parses or reports the second file derives only from --to-*/TO_PATH options and symmetrically for "
+            "the first, at the get_filetype / build_tree_handling_errors / diff sinks and in the error branches; (R14b) "
+            "alias equivalence decided exhaustively by evaluating main's option logic over its finite flag domain "
+            "(-k == --dict-strategy none, default == auto, the three strategies' documented meaning, -j == -jl -jd, "
+            "--from-TYPE/--to-TYPE == --from-mime/--to-mime with that type's MIME string); (R14c) get_filetype consults "
+            "the path only when no MIME type is given and writes no module state; (R14d) main applies no CLI-only "
+            "transformation to the trees, selects the formatter as documented, and every option has an effect. Byte "
+            "equality of CLI and library text below Printer.write (status-line buffering) is NOT decided.",
+            "DESIGN.md section 4 C14, section 3 E6/E7"),
 }
 
 NOT_YET = "check not built yet in this session (static rules designed in DESIGN.md; will be claimed once the rule runs clean)"
